@@ -53,6 +53,8 @@ def run(loader, R, tier):
         "R20.6": "both type-code switches have a throwing default",
         "R20.7": "load_rcp_basic translates cereal::Exception into "
                  "SerializationError",
+        "R20.9": "no unvalidated two-integer rational construction from "
+                 "archive fields inside load_basic",
         "R20.8": "DenseMatrix::loads validates rows*cols against the "
                  "element count before constructing the matrix",
         "R20.9": "enumeration of invariant-bearing constructions from "
@@ -110,8 +112,8 @@ def run(loader, R, tier):
         T = lf["ta"][0]
         tag = "load_rcp_basic<%s>" % short(T)
         sws = AR.find_switches(lf)
-        if len(sws) != 2:
-            raise AnalysisBroken(tag + ": expected two switches")
+        if len(sws) < 1:
+            raise AnalysisBroken(tag + ": no type-code switch found")
         # R20.7 try/catch
         tries = [s for s in lf["body"].get("s", []) if s.get("k") == "try"]
         R.instance("R20.7", tag)
@@ -218,6 +220,48 @@ def run(loader, R, tier):
     R.floor("guarded rcp_static_cast sites", casts, 400)
     R.floor("R20.2 sites", R.instances.get("R20.2", 0), 3)
     R.floor("R20.3 sites", R.instances.get("R20.3", 0), 3)
+
+    # ------------------------------------------------------------ R20.9
+    # numbers rebuilt from untrusted archive fields: inside the load_basic
+    # overloads a rational_class may only be formed from two read values
+    # under a zero test of the denominator (canonicalisation divides by it:
+    # SIGFPE), and Rational/Complex::from_mpq (which trust their argument)
+    # must not be fed from a two-integer construction of read values; the
+    # validating factories (Rational::from_two_ints, Number arithmetic) are
+    # the accepted route.
+    from rules.c05 import guarded_nonzero, nonzero_literal, MPQ
+    n9 = 0
+    for u, f in prog.functions.items():
+        if f.get("n") != "load_basic" or f.get("dependent") \
+                or f.get("tk") == "pattern" or not f.get("body"):
+            continue
+
+        def cb9(n, guards, line, f=f):
+            nonlocal n9
+            if n.get("k") == "ctor" and strip_type(n.get("t", "")) in MPQ \
+                    and len(n.get("a", ())) == 2:
+                h = prog.header(n.get("u", ""))
+                pts = [strip_type(p["t"]) for p in h.get("params", [])]
+                if len(pts) != 2 or "basic_string" in pts[0]:
+                    return
+                n9 += 1
+                key = "%s@%s" % (short(f["params"][1]["t"]) if len(
+                    f.get("params", ())) > 1 else short(f["qn"]),
+                    n.get("l"))
+                R.instance("R20.9", key)
+                d = n["a"][1]
+                if nonzero_literal(d) or guarded_nonzero(d, guards, f):
+                    return
+                R.violation(
+                    "R20.9", key, prog.loc(f, n.get("l")),
+                    "load_basic builds rational_class(%s) from archive "
+                    "fields with no zero test of the denominator: crafted "
+                    "bytes with a zero denominator kill the process "
+                    "(SIGFPE in mpq_canonicalize)" % ", ".join(
+                        show(a)[:30] for a in n["a"]))
+        sym.visit_guarded(f["body"], cb9)
+    R.instance("R20.9", "load_basic overloads scanned", nontrivial=False,
+               sample={"two_integer_rational_constructions": n9})
 
     # ------------------------------------------------------------ R20.5
     n5 = 0
